@@ -50,6 +50,7 @@ type connInfo struct {
 	closeErr   string
 	inCallback bool
 	faulted    bool // an errno was injected on this connection
+	fatal      string // a non-retryable errno was delivered to a system call made for this connection
 }
 
 type state struct {
@@ -257,8 +258,9 @@ func runProgram(kind string, c gnet.Conn, ci *connInfo) (out []byte, action gnet
 			}
 			continue
 		}
+		st.log = append(st.log, "hop "+h) // what the handler calls (input) ...
 		res := runHop(kv[0], arg, c, ci)
-		st.log = append(st.log, "hop "+h+" -> "+res)
+		st.log = append(st.log, "res "+res) // ... and what it gets back (prediction), after the system calls it caused
 	}
 	if kind == "open" {
 		if ci != nil { // the reply of OnOpen takes effect when the callback returns
@@ -500,7 +502,7 @@ func (h *handler) OnTraffic(c gnet.Conn) gnet.Action {
 	ci := st.conns[cid]
 	if st.proto == "udp" {
 		ci = nil
-		st.log = append(st.log, fmt.Sprintf("cb OnTraffic c=%s readable=%d remote=%v", cid, c.InboundBuffered(), c.RemoteAddr()))
+		st.log = append(st.log, fmt.Sprintf("cb OnTraffic c=%s readable=%d remote=%s", cid, c.InboundBuffered(), saOf(c.RemoteAddr())))
 		oracleUDP(c)
 	} else {
 		st.log = append(st.log, fmt.Sprintf("cb OnTraffic c=%s readable=%d", cid, c.InboundBuffered()))
@@ -544,6 +546,17 @@ func (h *handler) OnClose(c gnet.Conn, err error) gnet.Action {
 	}
 	_, a := runProgram("close", c, ci)
 	return a
+}
+
+// saOf renders a net.Addr the way the system-call shim renders socket addresses
+func saOf(a net.Addr) string {
+	if u, ok := a.(*net.UDPAddr); ok {
+		if ip4 := u.IP.To4(); ip4 != nil {
+			return fmt.Sprintf("inet4:%s:%d", util.Hex(ip4), u.Port)
+		}
+		return fmt.Sprintf("inet6:%s:%d:0", util.Hex(u.IP.To16()), u.Port)
+	}
+	return "nil"
 }
 
 // ---------------------------------------------------------------- UDP oracle (C08)
@@ -688,6 +701,11 @@ func newLoop(ws []string) string {
 		for _, k := range []string{key, call + "@*"} {
 			if q := st.directive[k]; len(q) > 0 {
 				st.directive[k] = q[1:]
+				if d := q[0]; d.Kind == "errno" && d.Errno != unix.EAGAIN && d.Errno != unix.EINTR {
+					if ci := st.conns[nameOf(fd)]; ci != nil && !strings.HasPrefix(call, "epoll_ctl_Delete") && call != "close" {
+						ci.fatal = call + ":" + unix.ErrnoName(d.Errno)
+					}
+				}
 				return q[0]
 			}
 		}
@@ -766,7 +784,7 @@ func step(ws []string) string {
 	case "send": // send <cid> <hex>
 		ci := st.conns[ws[1]]
 		if ci == nil || ci.peer == nil {
-			return "bad-op"
+			return "ok"
 		}
 		data := util.UnHex(ws[2])
 		_ = ci.peer.SetWriteDeadline(time.Now().Add(2 * time.Second))
@@ -777,7 +795,7 @@ func step(ws []string) string {
 	case "shutwr":
 		ci := st.conns[ws[1]]
 		if ci == nil || ci.peer == nil {
-			return "bad-op"
+			return "ok"
 		}
 		switch p := ci.peer.(type) {
 		case *net.UnixConn:
@@ -791,7 +809,7 @@ func step(ws []string) string {
 	case "peerclose":
 		ci := st.conns[ws[1]]
 		if ci == nil || ci.peer == nil {
-			return "bad-op"
+			return "ok"
 		}
 		_ = ci.peer.Close()
 		ci.finSent = true
@@ -800,7 +818,7 @@ func step(ws []string) string {
 	case "peerread": // peerread <cid> <max>
 		ci := st.conns[ws[1]]
 		if ci == nil || ci.peer == nil {
-			return "bad-op"
+			return "ok"
 		}
 		buf := make([]byte, atoi(ws[2]))
 		_ = ci.peer.SetReadDeadline(time.Now().Add(30 * time.Millisecond))
@@ -827,7 +845,7 @@ func step(ws []string) string {
 		return "ok"
 	case "udprecv":
 		if st.udp == nil {
-			return "bad-op"
+			return "ok"
 		}
 		buf := make([]byte, 70000)
 		_ = st.udp.udpPeer.SetReadDeadline(time.Now().Add(30 * time.Millisecond))
@@ -836,11 +854,11 @@ func step(ws []string) string {
 	case "async": // async <cid> write <hex> | wake | close   (from another goroutine; the loop is parked)
 		ci := st.conns[ws[1]]
 		if ci == nil {
-			return "bad-op"
+			return "ok"
 		}
 		c := connOf[ws[1]]
 		if c == nil {
-			return "bad-op"
+			return "ok"
 		}
 		var err error
 		switch ws[2] {
@@ -856,11 +874,18 @@ func step(ws []string) string {
 		}
 		return "ok @@ err=" + errName(err)
 	case "stop":
+		// C18: a connection that met a non-retryable I/O failure must be closed by now, with one OnClose(err != nil)
+		for _, cid := range st.order {
+			ci := st.conns[cid]
+			if ci.fatal != "" && ci.opened == 1 && (ci.closedCB != 1 || ci.closeErr != "nonnil" || !ci.fdClosed) {
+				fail(fmt.Sprintf("C18: %s met %s but is not closed with a non-nil OnClose error (OnClose calls %d, err %s, descriptor closed %v)", cid, ci.fatal, ci.closedCB, ci.closeErr, ci.fdClosed))
+			}
+		}
 		return "ok @@ err=" + errName(st.loop.Shutdown())
 	case "drain": // drain <cid>: the peer reads everything while the loop keeps running, until nothing moves
 		ci := st.conns[ws[1]]
 		if ci == nil || ci.peer == nil {
-			return "bad-op"
+			return "- @@="
 		}
 		var rounds []string
 		idle := 0
@@ -888,7 +913,7 @@ func step(ws []string) string {
 		return strings.Join(rounds, " || ") + " @@="
 	case "poll":
 		if st.exited {
-			return "exited"
+			return "exited @@="
 		}
 		st.grant <- struct{}{}
 		ev := waitEvent()
